@@ -241,7 +241,13 @@ pub fn main_gen(args: &[String]) {
                 let _ = b.add_message_integrity(&c2, IntegrityAlgorithm::Sha1);
             }
             lib_len = Some(b.byte_len());
-            if rng.gen_bool(0.5) {
+            let path = rng.gen_range(0..6);
+            if path == 0 {
+                // detached from the borrowed attributes after everything (sealing included) was added
+                b.clone().into_owned().build()
+            } else if path == 1 {
+                b.clone().build()
+            } else if path <= 3 {
                 b.build()
             } else {
                 // the other serialisation entry point, into a buffer that held something else before
